@@ -160,6 +160,13 @@ BAD_DEFAULTS = [({"type": "boolean"}, 1), ({"type": "integer"}, "x"), ({"type": 
   ({"$ref": "#/definitions/Ext"}, "Nope"), ({"$ref": "#/definitions/Ext"}, {"It": "s"}), ({"$ref": "#/definitions/Ext"}, {"Tu": [1]}), ({"$ref": "#/definitions/Ext"}, {"Unit": None}),
   ({"$ref": "#/definitions/Int"}, {"kind": "c"}), ({"$ref": "#/definitions/Int"}, {"kind": "b"}), ({"$ref": "#/definitions/Adj"}, {"t": "a"}),
   ({"$ref": "#/definitions/Adj"}, {"t": "a", "c": "s"}), ({"$ref": "#/definitions/Unt"}, 300), ({"$ref": "#/definitions/Unt"}, {"k": 1})]
+# integer bounds (the default fits the Rust integer type, not the schema's range), then every plainly typed entry again in the
+# nullable spelling `type: [T, "null"]` (the same default is just as invalid there)
+BAD_DEFAULTS += [({"type": "integer", "minimum": 0, "maximum": 100}, 200), ({"type": "integer", "minimum": 10}, 5), ({"type": "integer", "maximum": -1}, 0),
+                 ({"type": "integer", "exclusiveMinimum": 0}, 0), ({"type": "integer", "format": "uint32", "minimum": 1, "maximum": 10}, 11),
+                 ({"type": "integer", "format": "int64", "minimum": -5, "maximum": 5}, -6)]
+BAD_DEFAULTS += [(dict(s_, type=[s_["type"], "null"]), dv_) for s_, dv_ in list(BAD_DEFAULTS)
+                 if isinstance(s_.get("type"), str) and s_["type"] != "null" and dv_ is not None]
 BAD_DEFS = {k: GRID_DEFS[k] for k in ("St", "E", "N3", "Pat", "U8", "Nz", "Deny", "Ext", "Int", "Adj", "Unt")}
 
 # ------------------------------------------------------------------------------------------ known findings (predicates)
